@@ -47,6 +47,14 @@ type Rendered struct {
 	Knobs map[string]int
 	// Points (position-exhaustive mode): number of choice points met per knob.
 	Points map[string]int
+	// Files: every file of the project (the root and the included ones) by
+	// path relative to the project directory.
+	Files map[string]string
+}
+
+// Project wraps the rendered files as a runnable project.
+func (r Rendered) Project() Project {
+	return Project{Files: r.Files, Root: "root.jst"}
 }
 
 type renderer struct {
@@ -62,6 +70,7 @@ type renderer struct {
 	afterBareDescription bool
 	lineNo               int
 	kcount               map[string]int
+	files                map[string]string // finished included files (shared)
 }
 
 func (r *renderer) chance(knob string, rate int) bool {
@@ -297,7 +306,49 @@ func enumLines(vv []EnumVal) []string {
 	return []string{"[" + strings.Join(parts, ", ") + "]"}
 }
 
+// include writes the INCLUDE line and renders the included directives into
+// their own file (paths are relative to the including file's directory).
+func (r *renderer) include(d *Dir, depth int) {
+	r.trivia(depth)
+	r.afterBareDescription = false
+	ind := r.indent(depth)
+	r.write(ind)
+	begin := r.sb.Len()
+	line := r.lineNo
+	name := ""
+	if len(d.Params) > 0 {
+		name = d.Params[0]
+	}
+	r.write("INCLUDE " + r.param(name))
+	if r.chance("trailing-blanks", r.st.TrailWS) {
+		r.write(" ")
+	}
+	if r.chance("trailing-comment", r.st.TrailComment) {
+		r.write(" # " + commentTexts[r.pick("ctext", len(commentTexts))])
+	}
+	r.newline()
+	r.spans[d.ID] = Span{File: r.file, Begin: begin, End: r.sb.Len(), OwnEnd: r.sb.Len(), Line: line + 1}
+	dirOf := ""
+	if i := strings.LastIndex(r.file, "/"); i >= 0 {
+		dirOf = r.file[:i+1]
+	}
+	sub := &renderer{st: r.st, nl: r.nl, spans: r.spans, knobs: r.knobs, file: dirOf + name, kcount: r.kcount, files: r.files, pos: r.pos}
+	for _, c := range d.Included {
+		sub.dir(c, depth)
+	}
+	r.pos = sub.pos
+	text := sub.sb.String()
+	if d.NoFinalNewline {
+		text = strings.TrimSuffix(text, r.nl)
+	}
+	r.files[sub.file] = text
+}
+
 func (r *renderer) dir(d *Dir, depth int) {
+	if d.Kw == "INCLUDE" {
+		r.include(d, depth)
+		return
+	}
 	r.trivia(depth)
 	r.afterBareDescription = false
 	ind := r.indent(depth)
@@ -415,7 +466,7 @@ func (r *renderer) bodyIndent(depth int) string {
 
 // RenderDirs renders a list of directives as one file.
 func RenderDirs(dirs []*Dir, baseDepth int, st Style, file string) Rendered {
-	r := &renderer{st: st, nl: st.NL, spans: map[int]Span{}, knobs: map[string]int{}, file: file, kcount: map[string]int{}}
+	r := &renderer{st: st, nl: st.NL, spans: map[int]Span{}, knobs: map[string]int{}, file: file, kcount: map[string]int{}, files: map[string]string{}}
 	if r.nl == "" {
 		r.nl = "\n"
 	}
@@ -428,7 +479,8 @@ func RenderDirs(dirs []*Dir, baseDepth int, st Style, file string) Rendered {
 	case "\r":
 		r.knobs["newline-cr"]++
 	}
-	return Rendered{Text: r.sb.String(), Spans: r.spans, Knobs: r.knobs, Points: r.kcount}
+	r.files[file] = r.sb.String()
+	return Rendered{Text: r.sb.String(), Spans: r.spans, Knobs: r.knobs, Points: r.kcount, Files: r.files}
 }
 
 // RewritePoints renders in counting mode and returns, per knob, how many
